@@ -1,5 +1,6 @@
 """Logical meaning of the contract-language primitives (spec/prims.py) under the prover."""
 import z3
+from .engine import RLIMIT_PER_MS
 
 from . import vals as V
 from .sym import Z, C, ZBool, ZInt, Unsupported
@@ -233,6 +234,7 @@ def _all_lists(ip, xs):
             if ef is not None:
                 sv = z3.Solver()
                 sv.set("timeout", 3000)
+                sv.set("rlimit", RLIMIT_PER_MS * (3000))
                 sv.add(z3.Not(V.is_list(ef)))
                 if sv.check() == z3.unsat:
                     return z3.BoolVal(True)
